@@ -76,26 +76,27 @@ Definition seqv (a b : rstate) : Prop :=
   r_form a = r_form b /\ r_query a = r_query b /\ r_body a = r_body b /\
   r_getbody a = r_getbody b /\ r_reader a = r_reader b /\ r_unreplayable a = r_unreplayable b /\
   r_attempt a = r_attempt b /\ r_path a = r_path b /\ r_pparams a = r_pparams b /\
-  r_ordered a = r_ordered b /\ r_marshal a = r_marshal b /\ heq (r_headers a) (r_headers b).
+  r_ordered a = r_ordered b /\ r_marshal a = r_marshal b /\ r_close a = r_close b /\
+  heq (r_headers a) (r_headers b).
 
 Lemma seqv_refl a : seqv a a.
 Proof. unfold seqv. repeat split; apply heq_refl. Qed.
 Lemma seqv_sym a b : seqv a b -> seqv b a.
 Proof.
-  unfold seqv. intros (?&?&?&?&?&?&?&?&?&?&?&?&?&?&H). repeat (split; [congruence|]). apply heq_sym, H.
+  unfold seqv. intros (?&?&?&?&?&?&?&?&?&?&?&?&?&?&?&H). repeat (split; [congruence|]). apply heq_sym, H.
 Qed.
 Lemma seqv_trans a b c : seqv a b -> seqv b c -> seqv a c.
 Proof.
-  unfold seqv. intros (?&?&?&?&?&?&?&?&?&?&?&?&?&?&Hx) (?&?&?&?&?&?&?&?&?&?&?&?&?&?&Hy).
+  unfold seqv. intros (?&?&?&?&?&?&?&?&?&?&?&?&?&?&?&Hx) (?&?&?&?&?&?&?&?&?&?&?&?&?&?&?&Hy).
   repeat (split; [congruence|]). eapply heq_trans; eassumption.
 Qed.
 
 Lemma seqv_wire c a b : seqv a b -> wire_same (wire_of c a) (wire_of c b).
 Proof.
   unfold seqv, wire_same, wire_of, wire_query, wire_path, body_now.
-  cbn [w_method w_path w_query w_cookies w_body w_headers].
-  intros (Hm & Hq & Hc & Hf & Hqq & Hb & Hg & Hr & Hu & Ha & Hpa & Hpp & Hod & Hms & Hh).
-  rewrite Hm, Hq, Hc, Hqq, Hg, Hr, Hpa, Hpp. repeat split. exact Hh.
+  cbn [w_method w_path w_query w_cookies w_body w_headers w_close].
+  intros (Hm & Hq & Hc & Hf & Hqq & Hb & Hg & Hr & Hu & Ha & Hpa & Hpp & Hod & Hms & Hcl & Hh).
+  rewrite Hm, Hq, Hc, Hqq, Hg, Hr, Hpa, Hpp, Hcl. repeat split. exact Hh.
 Qed.
 
 Lemma wire_same_refl a : wire_same a a.
@@ -104,13 +105,13 @@ Lemma wire_same_sym a b : wire_same a b -> wire_same b a.
 Proof. unfold wire_same. intuition congruence. Qed.
 Lemma wire_same_trans a b c : wire_same a b -> wire_same b c -> wire_same a c.
 Proof.
-  unfold wire_same. intros (?&?&?&?&?&Hx) (?&?&?&?&?&Hy). repeat (split; [congruence|]).
+  unfold wire_same. intros (?&?&?&?&?&?&Hx) (?&?&?&?&?&?&Hy). repeat (split; [congruence|]).
   intro k. rewrite Hx. apply Hy.
 Qed.
 
 Ltac simp_r :=
   cbn [r_method r_rawquery r_headers r_cookies r_form r_query r_body r_getbody r_reader r_unreplayable r_attempt
-       r_path r_pparams r_ordered r_marshal
+       r_path r_pparams r_ordered r_marshal r_close
        set_headers set_cookies set_form set_body set_reader set_attempt set_marshal].
 
 Ltac solve_seqv :=
@@ -141,13 +142,13 @@ Variable c : client.
 
 Lemma prep_header_seqv a b : seqv a b -> seqv (prep_header c a) (prep_header c b).
 Proof.
-  intros H. pose proof H as (Hm & Hq & Hc & Hf & Hqq & Hb & Hg & Hr & Hu & Ha & Hpa & Hpp & Hod & Hms & Hh).
+  intros H. pose proof H as (Hm & Hq & Hc & Hf & Hqq & Hb & Hg & Hr & Hu & Ha & Hpa & Hpp & Hod & Hms & Hcl & Hh).
   unfold prep_header. solve_seqv.
 Qed.
 
 Lemma prep_cookie_seqv a b : seqv a b -> seqv (prep_cookie c a) (prep_cookie c b).
 Proof.
-  intros H. pose proof H as (Hm & Hq & Hc & Hf & Hqq & Hb & Hg & Hr & Hu & Ha & Hpa & Hpp & Hod & Hms & Hh).
+  intros H. pose proof H as (Hm & Hq & Hc & Hf & Hqq & Hb & Hg & Hr & Hu & Ha & Hpa & Hpp & Hod & Hms & Hcl & Hh).
   unfold prep_cookie. rewrite Ha.
   destruct (nonempty (c_cookies c) && (r_attempt b <=? 0)%Z); [|exact H].
   rewrite Hc. solve_seqv.
@@ -155,13 +156,13 @@ Qed.
 
 Lemma marshal_ct_seqv a b : seqv a b -> marshal_ct c a = marshal_ct c b.
 Proof.
-  intros H. destruct H as (_&_&_&_&_&_&_&_&_&_&_&_&_&_&Hh). unfold marshal_ct.
+  intros H. destruct H as (_&_&_&_&_&_&_&_&_&_&_&_&_&_&_&Hh). unfold marshal_ct.
   rewrite (hfirst_heq content_type _ _ Hh). reflexivity.
 Qed.
 
 Lemma marshal_stage_seqv a b : seqv a b -> seqv (marshal_stage c a) (marshal_stage c b).
 Proof.
-  intros H. pose proof H as (Hm & Hq & Hc & Hf & Hqq & Hb & Hg & Hr & Hu & Ha & Hpa & Hpp & Hod & Hms & Hh).
+  intros H. pose proof H as (Hm & Hq & Hc & Hf & Hqq & Hb & Hg & Hr & Hu & Ha & Hpa & Hpp & Hod & Hms & Hcl & Hh).
   unfold marshal_stage. rewrite Hms, (marshal_ct_seqv a b H).
   destruct (r_marshal b) as [m|] eqn:Emb; [|exact H].
   destruct (nonempty (marshal_ct c b)); [destruct (is_xml_type (marshal_ct c b))|]; solve_seqv.
@@ -169,7 +170,7 @@ Qed.
 
 Lemma detect_stage_seqv a b : seqv a b -> seqv (detect_stage detect c a) (detect_stage detect c b).
 Proof.
-  intros H. pose proof H as (Hm & Hq & Hc & Hf & Hqq & Hb & Hg & Hr & Hu & Ha & Hpa & Hpp & Hod & Hms & Hh).
+  intros H. pose proof H as (Hm & Hq & Hc & Hf & Hqq & Hb & Hg & Hr & Hu & Ha & Hpa & Hpp & Hod & Hms & Hcl & Hh).
   unfold detect_stage. rewrite Hb. destruct (r_body b) eqn:Ebb; [|exact H].
   destruct (nonempty (hfirst content_type (c_headers c))); [exact H|].
   rewrite (hfirst_heq content_type _ _ Hh).
@@ -180,7 +181,7 @@ Lemma merge_form_seqv a b : seqv a b ->
   seqv (if nonempty (c_form c) && (r_attempt a <=? 0)%Z then set_form a (add_values (c_form c) (r_form a)) else a)
        (if nonempty (c_form c) && (r_attempt b <=? 0)%Z then set_form b (add_values (c_form c) (r_form b)) else b).
 Proof.
-  intros H. pose proof H as (Hm & Hq & Hc & Hf & Hqq & Hb & Hg & Hr & Hu & Ha & Hpa & Hpp & Hod & Hms & Hh).
+  intros H. pose proof H as (Hm & Hq & Hc & Hf & Hqq & Hb & Hg & Hr & Hu & Ha & Hpa & Hpp & Hod & Hms & Hcl & Hh).
   rewrite Ha, Hf. destruct (nonempty (c_form c) && (r_attempt b <=? 0)%Z); [solve_seqv|exact H].
 Qed.
 
@@ -189,12 +190,12 @@ Proof.
   intros H. pose proof H as (Hm & _).
   unfold prep_body, prep_body_gen. rewrite Hm. cbn [orb].
   destruct (payload_forbid c (r_method b)).
-  { pose proof H as (_ & Hq & Hc & Hf & Hqq & Hb & Hg & Hr & Hu & Ha & Hpa & Hpp & Hod & Hms & Hh). solve_seqv. }
+  { pose proof H as (_ & Hq & Hc & Hf & Hqq & Hb & Hg & Hr & Hu & Ha & Hpa & Hpp & Hod & Hms & Hcl & Hh). solve_seqv. }
   pose proof (merge_form_seqv a b H) as H1. cbv zeta.
   set (a1 := if nonempty (c_form c) && (r_attempt a <=? 0)%Z then _ else a) in *.
   set (b1 := if nonempty (c_form c) && (r_attempt b <=? 0)%Z then _ else b) in *.
   clearbody a1 b1.
-  pose proof H1 as (Hm1 & Hq & Hc & Hf & Hqq & Hb & Hg & Hr & Hu & Ha & Hpa & Hpp & Hod & Hms & Hh).
+  pose proof H1 as (Hm1 & Hq & Hc & Hf & Hqq & Hb & Hg & Hr & Hu & Ha & Hpa & Hpp & Hod & Hms & Hcl & Hh).
   rewrite Hod, Hf.
   destruct (nonempty (r_ordered b1)); [solve_seqv|].
   destruct (nonempty (r_form b1)); [solve_seqv|].
@@ -206,7 +207,7 @@ Proof. intros H. unfold prepare. apply prep_body_seqv, prep_cookie_seqv, prep_he
 
 (* the fields no stage of the middleware pass touches *)
 Definition frame (s : rstate) :=
-  (r_method s, r_rawquery s, r_query s, r_reader s, r_unreplayable s, r_attempt s, r_path s, r_pparams s).
+  (r_method s, r_rawquery s, r_query s, r_reader s, r_unreplayable s, r_attempt s, r_path s, r_pparams s, r_close s).
 
 Lemma frame_marshal_stage s : frame (marshal_stage c s) = frame s.
 Proof.
@@ -251,6 +252,9 @@ Lemma prepare_url_fields s :
   r_query (prepare detect c s) = r_query s /\ r_rawquery (prepare detect c s) = r_rawquery s /\
   r_path (prepare detect c s) = r_path s /\ r_pparams (prepare detect c s) = r_pparams s.
 Proof. pose proof (frame_prepare s) as H. unfold frame in H. repeat split; congruence. Qed.
+
+Lemma prepare_close s : r_close (prepare detect c s) = r_close s.
+Proof. pose proof (frame_prepare s) as H. unfold frame in H. congruence. Qed.
 
 Lemma marshal_stage_not_reader s : r_getbody s <> GBReader -> r_getbody (marshal_stage c s) <> GBReader.
 Proof.
@@ -365,7 +369,7 @@ Qed.
 
 Lemma seqv_set_attempt0 a b z : seqv a b -> seqv (set_attempt a z) (set_attempt b z).
 Proof.
-  unfold seqv. intros (?&?&?&?&?&?&?&?&?&?&?&?&?&?&H). simp_r.
+  unfold seqv. intros (?&?&?&?&?&?&?&?&?&?&?&?&?&?&?&H). simp_r.
   repeat (split; [first [assumption|reflexivity]|]). exact H.
 Qed.
 
